@@ -98,3 +98,15 @@ Definition is_ok (r : res) : bool := match r with RErr _ => false | _ => true en
 Definition count_ok (rs : list res) : nat := length (filter is_ok rs).
 Definition cw_cond (w : cwriter) : cond :=
   match w with WPut _ cd => cd | WCpl _ _ cd => cd | WDel cd => cd end.
+
+(* ---------- arbitrary histories: the state each operation runs in, and its result ---------- *)
+Fixpoint pre_states (i : N) (hist : list res) (s : mstate) (ops : list op) : list mstate :=
+  match ops with
+  | [] => []
+  | o :: rest => let '(s', r) := step i hist s o in with_ids s i :: pre_states (i + 1) (r :: hist) s' rest
+  end.
+Fixpoint run_results (i : N) (hist : list res) (s : mstate) (ops : list op) : list res :=
+  match ops with
+  | [] => []
+  | o :: rest => let '(s', r) := step i hist s o in r :: run_results (i + 1) (r :: hist) s' rest
+  end.
